@@ -23,6 +23,8 @@ def pipeline(prop, tier, fam):
     traces = []          # (path, source)
     ncases = 0
     # ---- M + G: model-check the spec, collect generated cases
+    if "per_state" in fam:
+        fam["per_state"][0] = 8 if tier == "thorough" else 1
     for m in fam.get("models", []):
         cfg = m["cfg"][tier]
         if cfg is None:
@@ -42,10 +44,14 @@ def pipeline(prop, tier, fam):
             world = None
             for w in vlib.tlc_lines(r["out"], "WORLD"):
                 world = w
+            fam["_world"] = world
             cases = []
             for i, c in enumerate(vlib.tlc_lines(r["out"], "CASE")):
-                cases.append(m["cases"](world, c, i))
-            cases = [c for c in cases if c is not None]
+                out = m["cases"](world, c, i)
+                if isinstance(out, list):
+                    cases.extend(out)
+                elif out is not None:
+                    cases.append(out)
             limit = m.get("limit", {}).get(tier)
             if limit and len(cases) > limit:
                 import random
@@ -64,8 +70,9 @@ def pipeline(prop, tier, fam):
         tpath = os.path.join(wd, "drive.trace.ndjson")
         vlib.conform("drive", fam["family"], seed, dn, tpath, binary=binary)
         traces.append((tpath, "T:drive", fam["trace_module"]))
-    for extra in fam.get("extra_traces", lambda tier, wd, seed: [])(tier, wd, seed):
-        traces.append(extra)
+    if fam.get("extra_traces"):
+        for extra in fam["extra_traces"](fam, tier, wd, seed):
+            traces.append(extra)
 
     # ---- validate every trace with TLC
     total = 0
